@@ -22,9 +22,11 @@ Case(k) ==
       r  == ReadF(p.c, f, "real")
       ri == ReadF(p.c, f, "ideal")
   IN [id |-> k, c |-> p.c, s |-> p.s, d |-> p.d, o |-> o, lines |-> f,
-      rt |-> (r.ok /\ r.o = o), rw |-> (r.ok /\ FileW(p.c, r.o) = f), ideal |-> (ri.ok /\ ri.o = o),
+      \* (no grammar is modelled for the grid exchange formats: the instance and the expectation only)
+      rt |-> (p.c \in ExchangeFormats \/ (r.ok /\ r.o = o)), rw |-> (p.c \in ExchangeFormats \/ (r.ok /\ FileW(p.c, r.o) = f)),
+      ideal |-> (p.c \in ExchangeFormats \/ (ri.ok /\ ri.o = o)),
       rok |-> r.ok, ev |-> SetToSeq(r.ev), at |-> r.at, traits |-> SetToSeq(Traits(p.c, o)),
-      mdiff |-> IF r.ok /\ r.o # o THEN SetToSeq(DiffFields(o, r.o)) ELSE <<>>]
+      mdiff |-> IF p.c \notin ExchangeFormats /\ r.ok /\ r.o # o THEN SetToSeq(DiffFields(o, r.o)) ELSE <<>>]
 
 Init == n \in 1..Len(Picks) /\ ph = 0
 Next == ph = 0 /\ ph' = 1 /\ n' = n /\ PrintT(ToJson(Case(n)))
